@@ -358,6 +358,26 @@ impl World {
         new
     }
 
+    /// raw read-only query on the aggregator's main database file (independent of the repositories)
+    pub fn raw_rows(&self, sql: &str) -> Vec<Vec<String>> {
+        let path = self.config.data_stores_directory.join("aggregator.sqlite3");
+        let Ok(conn) = sqlite::Connection::open_with_flags(&path, sqlite::OpenFlags::new().with_read_only()) else {
+            return vec![];
+        };
+        let mut out = vec![];
+        let Ok(mut st) = conn.prepare(sql) else {
+            return vec![];
+        };
+        while let Ok(sqlite::State::Row) = st.next() {
+            let mut row = vec![];
+            for i in 0..st.column_count() {
+                row.push(st.read::<Option<String>, _>(i).ok().flatten().unwrap_or_default());
+            }
+            out.push(row);
+        }
+        out
+    }
+
     pub fn message_text(m: &ProtocolMessage) -> String {
         m.to_message()
     }
